@@ -25,7 +25,7 @@ from .values import (
     to_boolean,
     to_number,
     to_integer_or_infinity,
-    relative_index,
+    relative_index as _relative_index,
     to_string,
     array_to_string,
     js_typeof,
@@ -1030,6 +1030,16 @@ class VM:
         # If we get here, conversion failed
         raise JSTypeError("Cannot convert object to primitive value")
 
+    def _to_string(self, value: JSValue) -> str:
+        """Convert to string, with ToPrimitive (hint string) for objects."""
+        if isinstance(value, JSObject):
+            value = self._to_primitive(value, "string")
+        return to_string(value)
+
+    def _to_integer_or_infinity(self, value: JSValue) -> Union[int, float]:
+        """ToIntegerOrInfinity, with ToPrimitive (hint number) for objects."""
+        return to_integer_or_infinity(self._to_number(value))
+
     def _to_number(self, value: JSValue) -> Union[int, float]:
         """Convert to number, with ToPrimitive for objects."""
         if isinstance(value, JSObject):
@@ -1328,6 +1338,15 @@ class VM:
 
     def _make_array_method(self, arr: JSArray, method: str) -> Any:
         """Create a bound array method."""
+        # Arguments are converted the way the specification says: an object
+        # goes through ToPrimitive (its valueOf / toString) first
+        to_string = self._to_string  # noqa: F841
+        to_number = self._to_number  # noqa: F841
+        to_integer_or_infinity = self._to_integer_or_infinity  # noqa: F841
+
+        def relative_index(value, length):  # noqa: F811
+            return _relative_index(self._to_number(value), length)
+
         vm = self  # Reference for closures
 
         def push_fn(*args):
@@ -1791,6 +1810,15 @@ class VM:
 
     def _make_regexp_method(self, re: JSRegExp, method: str) -> Any:
         """Create a bound RegExp method."""
+        # Arguments are converted the way the specification says: an object
+        # goes through ToPrimitive (its valueOf / toString) first
+        to_string = self._to_string  # noqa: F841
+        to_number = self._to_number  # noqa: F841
+        to_integer_or_infinity = self._to_integer_or_infinity  # noqa: F841
+
+        def relative_index(value, length):  # noqa: F811
+            return _relative_index(self._to_number(value), length)
+
         self._arm_regex(re)
 
         def test_fn(*args):
@@ -1815,6 +1843,15 @@ class VM:
 
     def _make_typed_array_method(self, arr: JSTypedArray, method: str) -> Any:
         """Create a bound typed array method."""
+
+        # Arguments are converted the way the specification says: an object
+        # goes through ToPrimitive (its valueOf / toString) first
+        to_string = self._to_string  # noqa: F841
+        to_number = self._to_number  # noqa: F841
+        to_integer_or_infinity = self._to_integer_or_infinity  # noqa: F841
+
+        def relative_index(value, length):  # noqa: F811
+            return _relative_index(self._to_number(value), length)
 
         def toString_fn(*args):
             # Join elements with comma
@@ -1859,6 +1896,15 @@ class VM:
 
     def _make_number_method(self, n: float, method: str) -> Any:
         """Create a bound number method."""
+
+        # Arguments are converted the way the specification says: an object
+        # goes through ToPrimitive (its valueOf / toString) first
+        to_string = self._to_string  # noqa: F841
+        to_number = self._to_number  # noqa: F841
+        to_integer_or_infinity = self._to_integer_or_infinity  # noqa: F841
+
+        def relative_index(value, length):  # noqa: F811
+            return _relative_index(self._to_number(value), length)
 
         def toFixed(*args):
             digits = to_integer_or_infinity(args[0]) if args else 0
@@ -1972,6 +2018,15 @@ class VM:
 
     def _make_string_method(self, s: str, method: str) -> Any:
         """Create a bound string method."""
+
+        # Arguments are converted the way the specification says: an object
+        # goes through ToPrimitive (its valueOf / toString) first
+        to_string = self._to_string  # noqa: F841
+        to_number = self._to_number  # noqa: F841
+        to_integer_or_infinity = self._to_integer_or_infinity  # noqa: F841
+
+        def relative_index(value, length):  # noqa: F811
+            return _relative_index(self._to_number(value), length)
 
         def index_arg(args, i, default=0):
             # ToIntegerOrInfinity of argument i; `default` when it is absent or undefined
